@@ -517,3 +517,76 @@ Example C17_token_tally_nonvacuous :
   /\ go [OVote 1 0 2; OVote 1 1 1; OVote 1 0 1] = Some (OutClosed [(1%nat, Passed)])
   /\ List.length (votes (run [] s [OSubmit 0 1 CText; OVote 1 0 2; OVote 1 1 1; OVote 1 0 1])) = 2%nat.
 Proof. cbv zeta. repeat split; vm_compute; reflexivity. Qed.
+
+(** * 7. instants, exact tallies, panicking handlers (third round of seeded changes) *)
+
+(* GetTokenCommitteeProposalResult in integers, for all states, committees and votes:
+   turnout * 10^18 >= quorum mantissa * supply and yes * 10^18 >= threshold mantissa * (yes + no).
+   Dec.Mul by a whole number is exact, so the implementation's comparison is this
+   cross-multiplication: nothing is divided, nothing is rounded. *)
+Theorem C17_token_tally_exact :
+  forall s c pid q, c_kind c = CToken q ->
+  let vs := votes_of s pid in
+  let yes := weight s (fun v => v_type v =? 1) vs in
+  let no := weight s (fun v => v_type v =? 2) vs in
+  let total := weight s (fun _ => true) vs in
+  tally s c pid = (q * supply s <=? total * PREC) && (c_threshold c * (yes + no) <=? yes * PREC).
+Proof. exact token_tally_exact. Qed.
+Print Assumptions C17_token_tally_exact.
+
+Theorem C17_member_tally_exact :
+  forall s c pid, c_kind c = CMember ->
+  tally s c pid = (c_threshold c * Z.of_nat (List.length (c_members c)) <=? Z.of_nat (List.length (votes_of s pid)) * PREC).
+Proof. exact member_tally_exact. Qed.
+Print Assumptions C17_member_tally_exact.
+
+(* a turnout below quorum * supply by any amount, however small, fails the tally *)
+Theorem C17_token_quorum_missed_fails :
+  forall s c pid q, c_kind c = CToken q ->
+  weight s (fun _ => true) (votes_of s pid) * PREC < q * supply s -> tally s c pid = false.
+Proof. exact token_quorum_missed_fails. Qed.
+Print Assumptions C17_token_quorum_missed_fails.
+
+(* quorum 2/3 as LegacyDec stores it (rounded up): voters holding exactly 2 000 000 of
+   3 000 000 miss it (2 000 000 < 0.666666666666666667 * 3 000 000), one more token meets
+   it; the rounded turnout ratio Quo(2 000 000, 3 000 000) = 0.666666666666666667 would
+   have met it - which is why the ratio must not be what is compared *)
+Example C17_quorum_two_thirds_exact :
+  let c := mkCom 1 (CToken 666666666666666667) [0]%nat [PermText] 500000000000000000 100000000000 AtDeadline in
+  let s := mkState [] [c] [] [] 1 [2000000; 1000000] 3000000 0 2 0 [0; 0; 0; 0] in
+  let go pre := match step [] (run [] s (pre ++ [OSubmit 0 1 CText; OVote 1 0 1])) (OBegin 100000000000) with Ok _ o => Some o | _ => None end in
+  go [] = Some (OutClosed [(1%nat, Failed)])
+  /\ go [OTransfer 1 0 1] = Some (OutClosed [(1%nat, Passed)])
+  /\ (666666666666666667 <=? dec_quo (dec_of_int 2000000) (dec_of_int 3000000)) = true.
+Proof. cbv zeta. repeat split; vm_compute; reflexivity. Qed.
+
+(* times are instants in nanoseconds.  A block at 1.5 s, a 100 s committee: the deadline is
+   101.5 s.  Blocks at 101.1 s and at 101.499999999 s - in the deadline's unix second,
+   before the deadline - leave the proposal open and their votes are accepted and counted;
+   the block at 101.5 s closes it. *)
+Example C17_deadline_is_an_instant :
+  let c := mkCom 1 CMember [0; 1]%nat [PermText] 1000000000000000000 100000000000 AtDeadline in
+  let s := mkState [] [c] [] [] 1 [] 0 0 2 0 [0; 0; 0; 0] in
+  let s1 := run [] s [OBegin 1500000000; OSubmit 0 1 CText; OVote 1 0 1] in
+  let out st o := match step [] st o with Ok _ x => Some x | _ => None end in
+  map p_deadline (props s1) = [101500000000]
+  /\ out s1 (OBegin 101100000000) = Some (OutClosed [])
+  /\ out (run [] s1 [OBegin 101100000000]) (OVote 1 1 1) = Some OutNone
+  /\ out (run [] s1 [OBegin 101499999999]) (OVote 1 1 1) = Some OutNone
+  /\ out (run [] s1 [OBegin 101499999999; OVote 1 1 1]) (OBegin 101500000000) = Some (OutClosed [(1%nat, Passed)])
+  /\ out s1 (OBegin 101500000000) = Some (OutClosed [(1%nat, Failed)]).
+Proof. cbv zeta. repeat split; vm_compute; reflexivity. Qed.
+
+(* a parameter change whose handler panics (PNoKey: Subspace.Update panics) is refused at
+   submission even for a committee that may change everything; had it been stored (here:
+   put into the store by hand), the begin blocker closes it Invalid and does not panic *)
+Example C17_panicking_handler_no_halt :
+  let c := mkCom 1 CMember [0]%nat [PermGod] 1000000000000000000 100000000000 FPTP in
+  let bad := CParam [(PNoKey, Some JNull)] in
+  let s := mkState [] [c] [] [] 1 [] 0 0 2 0 [0; 0; 0; 0] in
+  let stored := mkState [] [c] [mkProp 1 1 100000000000 bad] [mkVote 1 0 1 0] 2 [] 0 0 2 0 [0; 0; 0; 0] in
+  step [] s (OSubmit 0 1 bad) = Err
+  /\ step [] stored (OBegin 1000000000)
+     = Ok (mkState [] [c] [] [] 2 [] 0 1000000000 3 0 [0; 0; 0; 0]) (OutClosed [(1%nat, Invalid)]).
+Proof. cbv zeta. repeat split; vm_compute; reflexivity. Qed.
+
